@@ -775,6 +775,13 @@ def run(ck):
         ck.rule(k, v)
     check_a(ck, repo)
     check_b(ck, repo)
+    from .sem import check_decorators
+    ci = repo.cls(EXT, "ExtendedFeatures")
+    fis = [repo.func(POLY, n) for n in ("_transform_iall", "_transform_ionly", "_combinations_poly")] + list(ci.methods.values())
+    n_dec = len(ck.obs)
+    check_decorators(ck, "C11.b", fis)
+    if len(ck.obs) == n_dec:
+        ck.holds("C11.b", repo.func(POLY, "_combinations_poly"), f"decorators of {len(fis)} functions of the polynomial expansion", "no function of the expansion is wrapped: calls mean what the bodies say (in particular the one-shot iterator of _combinations_poly is built anew by every call)")
     ck.require_count("C11.a", 5, "width, factor, operands, advance x2 functions + break guard")
     ck.require_count("C11.b", 18, "recurrence summaries x2, dispatchers, widths, slow path")
 
@@ -782,6 +789,7 @@ def run(ck):
 _P = "mlinsights/mlmodel/_extended_features_polynomial.py"
 _E = "mlinsights/mlmodel/extended_features.py"
 WITNESSES = [
+    {"name": "combinations-iterator-memoised", "file": _P, "rule": "C11.b", "old": "def _combinations_poly(", "new": "import functools\n\n\n@functools.lru_cache(maxsize=128)\ndef _combinations_poly("},
     {"name": "iall-dest-one-short", "file": _P, "rule": "C11.a", "old": "                new_pos = pos + end - a\n                multiply(XP[:, a:end]", "new": "                new_pos = pos + end - a - 1\n                multiply(XP[:, a:end]"},
     {"name": "ionly-source-not-shifted", "file": _P, "rule": "C11.a", "old": "multiply(XP[:, a + dec : end], X[:, i : i + 1], XP[:, pos:new_pos])", "new": "multiply(XP[:, a:end], X[:, i : i + 1], XP[:, pos:new_pos])"},
     {"name": "iall-factor-two-columns", "file": _P, "rule": "C11.a", "old": "multiply(XP[:, a:end], X[:, i : i + 1], XP[:, pos:new_pos])", "new": "multiply(XP[:, a:end], X[:, i : i + 2], XP[:, pos:new_pos])"},
